@@ -497,7 +497,11 @@ def check_C01(tier, seed):
                                 menu_sizes=(1,), p_fal=0.0, named=False, depth=3)
              # "with its right context, if any, satisfied": some definitions with contexts too
              + F.random_general(seed + 2, n // 3, 8000, k=k, nsets=(1,), nrules=(2, 3, 4), p_sugar=0.2,
-                                menu_sizes=(1,), p_fal=0.0, p_ctx=0.45, depth=2))
+                                menu_sizes=(1,), p_fal=0.0, p_ctx=0.45, depth=2)
+             # priority among rules that match the same lexeme through `$`
+             + F.random_general(seed + 8, n // 3, 10000, k=k, nsets=(1,), nrules=(2, 3, 4), p_sugar=0.2,
+                                menu_sizes=(1,), p_fal=0.0, p_eoi=0.5, depth=1, letters=(F.A, F.B),
+                                sigma=(F.A, F.B, 120)))
     # "of the active rule set": the same shapes in a rule set other than Init, entered by a
     # switch (seed S-F10: rewind flags lost for every rule set but Init)
     from progs import chr_ as _chr, Program as _Program
